@@ -337,7 +337,7 @@ static std::vector<std::string> universe()
         // integers: zero, units, small, multi-limb
         "i0", "i1", "i-1", "i2", "i-2", "i3", "i-7", "i12", "i18446744073709551617", "i-1180591620717411303427",
         // rationals
-        "r1/2", "r-1/2", "r2/3", "r-7/3", "r5/4", "r36893488147419103233/3",
+        "r1/2", "r-1/2", "r2/3", "r-7/3", "r5/4", "r36893488147419103233/5",
         // Gaussian rationals
         "c0/1,1/1", "c0/1,-1/1", "c1/1,1/1", "c1/2,-3/4", "c-2/1,1/1", "c3/5,4/5",
         // symbolic infinities and nan
@@ -458,8 +458,11 @@ void hx_gen(Rng &r, const std::string &tier)
     for (int i = 0; i < n; i++) {
         std::string a = rand_value(r), b = rand_value(r);
         const char *op = OPS[r.below(5)];
-        if (std::string(op) == "pow" and (b[0] == 'i') and b.size() > 3)
-            b = "i" + std::to_string(r.range(-40, 40)); // keep integer exponents small
+        if (std::string(op) == "pow") { // keep integer exponents small (whatever token denotes them)
+            Num bb = parse_num(b);
+            if (is_a<Integer>(*bb) and mp_abs(down_cast<const Integer &>(*bb).as_integer_class()) > 40)
+                b = "i" + std::to_string(r.range(-40, 40));
+        }
         emit(std::string(op) + " " + a + " " + b, "random-" + kind_of(a) + "x" + kind_of(b));
     }
 }
